@@ -780,6 +780,8 @@ class Executor:
     def decide(self, cond) -> bool:
         cond = _b(cond)
         self.drain_defs()
+        if getattr(self, '_pure', 0) and not (z3.is_true(z3.simplify(cond)) or z3.is_false(z3.simplify(cond))):
+            raise Unsupported('a fork inside a comprehension element (bound index variable)')
         sc = z3.simplify(cond)
         if z3.is_true(sc):
             return True
@@ -1329,6 +1331,9 @@ class Executor:
         """python index semantics (negative from the end); raises IndexError"""
         k = _t(key)
         idx = z3.If(k < 0, k + lst.n, k)
+        if getattr(self, '_pure', 0):
+            self._pure_raises.append((IndexError, z3.Not(z3.And(idx >= 0, idx < lst.n))))
+            return z3.simplify(idx)
         if not self.decide(z3.And(idx >= 0, idx < lst.n)):
             raise PyRaise(IndexError)
         return z3.simplify(idx)
@@ -1454,6 +1459,11 @@ class Executor:
             return self.slice(cont, e.slice, frame)
         key = self.eval(e.slice, frame)
         if isinstance(cont, VMap):
+            if getattr(self, '_pure', 0):
+                # inside a comprehension (bound index variable): no forking; the raise condition is collected
+                # and decided for the whole comprehension afterwards
+                self._pure_raises.append((KeyError, z3.Not(_b(cont.has(key)))))
+                return cont.at(key)
             if not self.decide(cont.has(key)):
                 raise PyRaise(KeyError)
             v = cont.at(key)
@@ -1672,13 +1682,19 @@ class Executor:
         """evaluate expression(s) with the comprehension target bound to seq[k]; no forking allowed"""
         saved_env = dict(frame.env)
         saved_oracle = self.oracle
+        self._pure_raises = []
         try:
             self.bind_target(g.target, seq.elem(k), frame)
             conds = [self.pure_truth(c, frame) for c in g.ifs]
             vals = [self.pure_eval(x, frame) for x in exprs]
         finally:
             frame.env = saved_env
-        return vals, (z3.And(*conds) if conds else z3.BoolVal(True))
+        cond = z3.And(*conds) if conds else z3.BoolVal(True)
+        raises, self._pure_raises = self._pure_raises, []
+        for cls, rc in raises:
+            if self.decide(z3.Exists([k], z3.And(k >= 0, k < seq.n, cond, rc))):
+                raise PyRaise(cls)
+        return vals, cond
 
     def pure_eval(self, e, frame):
         self._pure = getattr(self, '_pure', 0) + 1
